@@ -170,7 +170,8 @@ def finishMaintain (s : WSpec) : Except String WSpec :=
       if s.actsLeft.isEmpty then
         (match s.takeTokens s.pendingDestroyed "destroyed" with
          | .error why => .error why
-         | .ok s => .ok { s with inMaintain := false, pendingDestroyed := [] })
+         | .ok s => .ok { s with inMaintain := false, pendingDestroyed := [],
+                                  graveyard := s.pendingDestroyed.filter (fun v => v != 0) ++ s.graveyard })
       else .error "C09 maintain reported running a script that was not queued"
     | _ => .error "C09 a queued action was left over when maintain returned"
 
@@ -534,9 +535,10 @@ def op (s : WSpec) (o : WOp) (r : WRes) : Except String WSpec :=
 /-- Account for the values the implementation destroyed during a top-level op (ledger, C08).
     For `maintain` the accounting is deferred until its nested lines have been seen. -/
 def destroyed (s : WSpec) (vs : List Int) : Except String WSpec :=
-  let s := { s with graveyard := vs.filter (fun v => v != 0) ++ s.graveyard }
+  -- during a maintain the values enter the graveyard only at its end: a nested read that precedes the
+  -- nested deletion legitimately returns a value that the same maintain destroys later
   if s.inMaintain then .ok { s with pendingDestroyed := s.pendingDestroyed ++ vs }
-  else s.takeTokens vs "destroyed"
+  else { s with graveyard := vs.filter (fun v => v != 0) ++ s.graveyard }.takeTokens vs "destroyed"
 
 /-- After `drop_world` nothing may still be owned (no leak). -/
 def checkLeak (s : WSpec) : Except String WSpec :=
